@@ -89,7 +89,7 @@ RT_FORMATS = {
     "D": ["%Y-%m-%d", "%d.%m.%Y", "%Y%m%d", "%Y-%j", "%G-W%V-%u", "%Y-%m-%dT%H:%M:%S"],
     "h": ["%Y-%m-%dT%H", "%Y-%m-%d %H:%M:%S"],
     "m": ["%Y-%m-%dT%H:%M", "%d.%m.%Y %H.%M"],
-    "s": ["%Y-%m-%dT%H:%M:%S", "%Y%m%d%H%M%S", "%d.%m.%Y %H:%M:%S"],
+    "s": ["%Y-%m-%dT%H:%M:%S", "%Y%m%d%H%M%S", "%d.%m.%Y %H:%M:%S", "%Y-%m-%d %X", "%x %X"],
     "ms": ["%Y-%m-%dT%H:%M:%S.%f", "%d.%m.%Y %H:%M:%S,%f"],
     "us": ["%Y-%m-%dT%H:%M:%S.%f", "%d.%m.%Y %H:%M:%S,%f"],
 }
@@ -365,7 +365,12 @@ def stale_dt_vector(unit, toks):
     """A vector whose .dt proxy was created while it held other contents."""
     # ... and on which dt functions were already CALLED with those other contents (anything a call
     # cached on the vector, its proxy or the module is stale now)
-    y = di.Vector(np.full(len(toks), "2001-02-03", dtype=f"datetime64[{unit}]"))
+    # ... and which is itself DERIVED (a slice) from a longer vector whose proxy had been used before: whatever a
+    # vector hands on to the vectors derived from it must not be bound to the source
+    src = di.Vector(np.full(len(toks) + 2, "2001-02-03", dtype=f"datetime64[{unit}]"))
+    src.dt.year()
+    src.dt.to_string("%Y")
+    y = src[1:-1]
     if len(toks):
         y[-1] = np.datetime64("NaT")
     y.dt
@@ -377,7 +382,13 @@ def stale_dt_vector(unit, toks):
 
 
 def stale_str_vector(toks, attr):
-    y = di.Vector(np.array(["zz"] * len(toks), dtype=di.dtypes.string))
+    src = di.Vector(np.array(["zz"] * (len(toks) + 2), dtype=di.dtypes.string))
+    getattr(src, attr)
+    if attr == "re":
+        src.re.findall("z")
+    else:
+        src.str.upper()
+    y = src[1:-1]
     getattr(y, attr)
     if attr == "re":
         y.re.findall("z")
